@@ -1249,6 +1249,43 @@ Proof. intros H. rewrite !history_independent_lemma, H. reflexivity. Qed.
 Lemma run_calls_app k S a b : run_calls k S (a ++ b) = run_calls k S a ++ run_calls k S b.
 Proof. unfold run_calls. apply map_app. Qed.
 
+(* ---------- caller-owned arrays updated in place; default package of the session ---------- *)
+(* the calls of a history, each with the contents its array had when the call was made *)
+Fixpoint snapshots (bufs : list vec) (ops : list hop) : list pcall :=
+  match ops with
+  | [] => []
+  | HSet i v :: t => snapshots (upd bufs i v) t
+  | HCall w i a :: t => call_of w (nth i bufs []) a :: snapshots bufs t
+  end.
+Fixpoint apply_sets (bufs : list vec) (ops : list hop) : list vec :=
+  match ops with
+  | [] => bufs
+  | HSet i v :: t => apply_sets (upd bufs i v) t
+  | HCall _ _ _ :: t => apply_sets bufs t
+  end.
+
+Lemma run_hist_results k S ops : forall bufs,
+  fst (run_hist k S bufs ops) = run_calls k S (snapshots bufs ops).
+Proof.
+  induction ops as [|o t IH]; intros bufs; [reflexivity|].
+  destruct o as [i v|w i a]; cbn [run_hist snapshots]; [apply IH|].
+  cbn [fst run_calls map]. f_equal. apply IH.
+Qed.
+Lemma run_hist_buffers k S ops : forall bufs,
+  snd (run_hist k S bufs ops) = apply_sets bufs ops.
+Proof.
+  induction ops as [|o t IH]; intros bufs; [reflexivity|].
+  destruct o as [i v|w i a]; cbn [run_hist apply_sets]; [apply IH|]. cbn [snd]. apply IH.
+Qed.
+
+Lemma run_session_cache_run {A} (build : key -> res A) ops : forall st dflt,
+  run_session build st dflt ops = fst (cache_run build st (resolved_keys dflt ops)).
+Proof.
+  induction ops as [|o t IH]; intros st dflt; [reflexivity|].
+  destruct o as [d|cs th]; cbn [run_session resolved_keys]; [apply IH|].
+  cbn [cache_run fst]. f_equal. apply IH.
+Qed.
+
 (* ---------- the dew-equation clause without the solver contracts ---------- *)
 (* the clause of the property as the text has it: whatever the root finders do, a computed dew temperature satisfies the
    dew equation on the normalised composition and the returned liquid fractions are the ones of that point *)
